@@ -5,7 +5,8 @@
 From Coq Require Import List ZArith.
 From Webp Require Import Base.Res Base.Bytes Riff.ParserModel Riff.ParserSpec Riff.FeaturesModel
      Riff.PrefixProofs Riff.FeaturesProofs Riff.MetadataProofs Riff.ParserSpecProofs Riff.WriterModel
-     Riff.WriterTheorems.
+     Riff.WriterTheorems Riff.ParserGrammar Riff.ParserDemuxAgree Riff.ParserDemuxAnim.
+From Webp Require Riff.RiffGrammar Riff.DemuxModel.
 Import ListNotations.
 Open Scope Z_scope.
 
@@ -85,6 +86,68 @@ Theorem C16_wf_still_accepted :
       fHasAnim (pFeat r) = false.
 Proof. exact wf_still_accepted. Qed.
 Print Assumptions C16_wf_still_accepted.
+
+(** views_agree across the TWO container parsers (stills): for every byte file
+    accepted by the independent grammar Riff.RiffGrammar.wf whose animation flag is
+    clear (up to the metadata cap), the model of internal/container.Parser and the
+    model of mux.Demuxer (Riff.DemuxModel.parse true, C14/C05 builder) both succeed
+    and agree on canvas size, animation flag, frame count (1) and the frame's
+    payload, alpha payload, size, offsets, duration, blend and dispose.  Loop count
+    is not part of the agreement for stills: the parser reports 1 (extended) or 0
+    (simple), the demuxer 0; Features.LoopCount is documented as meaningful only
+    for animations. *)
+Theorem C16_views_agree_still :
+  forall fx bs,
+    RiffGrammar.wf bs = true -> g_is_anim bs = false -> len bs <= MaxMetadataSize ->
+    exists r d,
+      parse fx bs = Ok r /\ DemuxModel.parse true bs = Ok d /\
+      Forall2 frame_agrees (pFrames r) (DemuxModel.d_frames d) /\ length (pFrames r) = 1%nat /\
+      fCanvasW (pFeat r) = DemuxModel.ft_w (DemuxModel.d_feat d) /\
+      fCanvasH (pFeat r) = DemuxModel.ft_h (DemuxModel.d_feat d) /\
+      fWidth (pFeat r) = DemuxModel.ft_w (DemuxModel.d_feat d) /\
+      fHeight (pFeat r) = DemuxModel.ft_h (DemuxModel.d_feat d) /\
+      fHasAnim (pFeat r) = false /\ DemuxModel.ft_anim (DemuxModel.d_feat d) = false /\
+      DemuxModel.d_loop d = 0 /\ (fLoopCount (pFeat r) = 1 \/ fLoopCount (pFeat r) = 0).
+Proof. exact views_agree_still. Qed.
+Print Assumptions C16_views_agree_still.
+
+(** views_agree across the two container parsers (animations): for every byte
+    file accepted by Riff.RiffGrammar.wf whose animation flag is set -- VP8X [ICCP]
+    ANIM ANMF+ [EXIF] [XMP], every ANMF a 16-byte header plus [ALPH] VP8 | VP8L inside
+    the canvas -- up to the limits both implementations enforce (metadata cap,
+    canvas area below MaxImageArea = 2^30 which only the parser checks, at most
+    MaxFrames = 10000 frames), both models succeed and agree on canvas size,
+    animation flag, LOOP COUNT, frame count and every frame's payload, alpha
+    payload, size, offsets, duration, blend and dispose. *)
+Theorem C16_views_agree_anim :
+  forall fx bs,
+    RiffGrammar.wf bs = true -> g_is_anim bs = true -> len bs <= MaxMetadataSize ->
+    g_canvas_area bs < MaxImageArea -> anmf_count bs <= MaxFrames ->
+    exists r d,
+      parse fx bs = Ok r /\ DemuxModel.parse true bs = Ok d /\
+      Forall2 frame_agrees (pFrames r) (DemuxModel.d_frames d) /\ (0 < length (pFrames r))%nat /\
+      fCanvasW (pFeat r) = DemuxModel.ft_w (DemuxModel.d_feat d) /\
+      fCanvasH (pFeat r) = DemuxModel.ft_h (DemuxModel.d_feat d) /\
+      fWidth (pFeat r) = DemuxModel.ft_w (DemuxModel.d_feat d) /\
+      fHeight (pFeat r) = DemuxModel.ft_h (DemuxModel.d_feat d) /\
+      fHasAnim (pFeat r) = true /\ DemuxModel.ft_anim (DemuxModel.d_feat d) = true /\
+      fLoopCount (pFeat r) = DemuxModel.d_loop d.
+Proof. exact views_agree_anim. Qed.
+Print Assumptions C16_views_agree_anim.
+
+(** Both layouts in one statement. *)
+Theorem C16_views_agree_two_parsers : forall fx bs,
+  RiffGrammar.wf bs = true -> len bs <= MaxMetadataSize ->
+  g_canvas_area bs < MaxImageArea -> anmf_count bs <= MaxFrames ->
+  exists r d,
+    parse fx bs = Ok r /\ DemuxModel.parse true bs = Ok d /\
+    Forall2 frame_agrees (pFrames r) (DemuxModel.d_frames d) /\ (0 < length (pFrames r))%nat /\
+    fCanvasW (pFeat r) = DemuxModel.ft_w (DemuxModel.d_feat d) /\
+    fCanvasH (pFeat r) = DemuxModel.ft_h (DemuxModel.d_feat d) /\
+    fHasAnim (pFeat r) = DemuxModel.ft_anim (DemuxModel.d_feat d) /\
+    (fHasAnim (pFeat r) = true -> fLoopCount (pFeat r) = DemuxModel.d_loop d).
+Proof. exact views_agree_two_parsers. Qed.
+Print Assumptions C16_views_agree_two_parsers.
 
 (** Parser-level views (GetFeatures, DecodeConfig, Parser.Features/Frames) fail
     together and agree on size, animation flag, frame count and loop count. *)
